@@ -10,8 +10,9 @@ Funcs == {<<"cumsum", 0>>, <<"acc_add", 0>>, <<"acc_subtract", 0>>, <<"acc_bitwi
 Init == /\ \E lens \in LenVecs : case = <<"seed", lens>>
         /\ exp = <<"seed">> /\ phase = 0
 Next == /\ phase = 0
-        /\ \E dt \in DTs, k \in {1, 2}, f \in Funcs :
-              /\ ~(IsFlt(dt) /\ k = 2)                       \* NaN / inf content: order is out of claim
+        /\ \E dt \in DTs, k \in {1, 2, 3}, f \in Funcs :
+              /\ ~(IsFlt(dt) /\ k = 2)                       \* NaN content: order is out of claim
+              /\ (k = 3 => IsFlt(dt))                        \* k = 3: infinities (repeated ones too), no NaN
               /\ case' = <<"scan", f[1], ArrP(dt, case[2], k), f[2]>>
               /\ exp' = Expect(case')
               /\ phase' = 2
